@@ -14,7 +14,7 @@ func init() {
 	property("C08",
 		"Static conformance of mapscripts handling: (a) emission skeleton — header label; one 'map_script <type>, <name>' line per plain entry then per table, each over the full range; '.byte 0' once after both and before any inline script; the inline scripts of plain entries (each entry's own Script); per table: its label, one 'map_script_2 <condition>, <comparison>, <name>' line per entry of that table over the full range, '.2byte 0' once after them inside the table loop, then the inline scripts of that table's own entries; (b) name binding — the name stored in an inline entry is the name of the script node built for it, table names are what header and table label print, entry names are numbered by a counter incremented once per entry; (c) inline bodies are parsed by the block parser and emitted by the script emitter; (d) entries are only ever appended, in the loop that reads them. Every map script type read is recorded, empty tables included (C08.d); inline scripts are emitted with the text-label set built in Emit (C20.e); Emit is total (C10.f); gathered condition / comparison values are the tokens joined by single spaces (C13.f).",
 		[]string{"scheme argument of DESIGN §4 C08; inline script behaviour relies on C01"},
-		"C08.a", "C08.b", "C08.c", "C08.d", "C06.c", "C13.a", "C01.h", "C20.e", "C10.f", "C13.f", "C08.e", "C10.g", "C18.m", "C18.d", "C18.n")
+		"C08.a", "C08.b", "C08.c", "C08.d", "C06.c", "C13.a", "C01.h", "C20.e", "C10.f", "C13.f", "C08.e", "C10.g", "C18.m", "C18.d", "C18.n", "C19.b", "C19.c", "C19.d", "C19.e")
 
 	register(&Rule{ID: "C08.a", Doc: "emission skeleton: order, full ranges, terminators, own scripts", Floor: 12, Run: c08a})
 	register(&Rule{ID: "C08.b", Doc: "name binding between entries, script nodes, tables and the numbering counter", Floor: 6, Run: c08b})
